@@ -34,7 +34,8 @@ RULE = (
     "layer (biased to sit exactly 3 cells from 1..3 faces), a zero-net-charge pulse (sampled first or second "
     "derivative of a Gaussian whose spectral peak sits at 15..30 (quick: 15..20) cells per wavelength, antisymmetric / mean-subtracted "
     "so that the samples sum to 0 and both end samples are 0), a field-detector box >= 3 cells from the layers, "
-    "courant factor 0.99 or 0.7. Every case is one full absorption measurement (small run + large free-space "
+    "courant factor 0.99 or 0.7; the layers use the default grading or (3 scenes in 8) real coordinate stretching "
+    "kappa_end = 1.5 / 2. Every case is one full absorption measurement (small run + large free-space "
     "reference run) and is non-trivial when the interior energy peak is > 0 and the reference record is non-zero. "
     "Distinct = sha1 of the case JSON. Classes: source kind, polarisation, faces the source touches (3 cells), "
     "thickness bucket per touched face, whether the comparison window covers the back-wall echo of every face."
@@ -55,6 +56,9 @@ ASSUMPTIONS = [
     "cells per wavelength crawls on the Yee grid and has not left by the stated time with any absorber: a "
     "derivative-of-Gaussian with sigma = 3 steps (10.8 cells) leaves 2.3e-6 of the peak in a 16^3 box in free space "
     "(walls outside the light cone) and 6.7e-6 with 8-cell PML, while sigma >= 4 steps leaves <= 4e-9",
+    "'absorbing layers' = the default CPML grading, optionally with moderate real stretching kappa_end <= 2 (measured "
+    "margins >= 600x to both limits; at kappa_end = 5 the 8..20-cell layers reach 1.5e-5 of the 1e-4 limit on the "
+    "unchanged tree, so strong stretchings are outside the generated domain)",
     "vacuum background (the default sigma grading assumes the vacuum impedance); float32 and float64 lanes use the "
     "same thresholds 1e-6 / 1e-4",
 ]
@@ -130,7 +134,12 @@ def case_strategy(draw, ctx):
         lo_a = draw(st.integers(3, inner[a] - 3 - size))
         dlo.append(lo_a)
         dhi.append(lo_a + size)
+    # three scenes in eight use real coordinate stretching (kappa_end 1.5 / 2: CPML's other code path, `kappa != 1`);
+    # measured on the unchanged tree: worst record difference 1.6e-7, worst residual 1.2e-9 at kappa_end = 2
+    # (2.4e-6 at 3, 1.5e-5 at 5 — stronger stretchings are left out because they eat the margin to the 1e-4 limit)
+    kappa_end = draw(st.sampled_from([None, None, None, None, None, 1.5, 2.0, 2.0]))
     return {
+        **({"kappa_end": kappa_end} if kappa_end else {}),
         "inner": inner,
         "pml": pml,
         "source": src,
@@ -225,6 +234,9 @@ def body(ctx, case):
     tlo, thi = p["tlo"], p["thi"]
     n_small = p["n_small"]
     faces = {f: {"kind": "pml", "thickness": case["pml"][f]} for f in scenes.FACES}
+    if case.get("kappa_end"):  # real coordinate stretching (the other CPML code path); absent = default grading
+        for f in faces.values():
+            f["pml_kwargs"] = {"kappa_end": float(case["kappa_end"])}
     det = case["det"]
     small = {
         "shape": n_small, "steps": p["t_total"], "courant": case["courant"], "faces": faces,
@@ -265,7 +277,7 @@ def body(ctx, case):
         ctx.classify("dipole_pol=%d" % s["pol"], "tilted" if "az" in s else "axis-aligned")
     else:
         ctx.classify("plane=%s%s" % (AX[s["axis"]], s["direction"]), "pol_angle=%g" % s["angle"])
-    ctx.classify("thick_min=%d" % min(case["pml"].values()), )
+    ctx.classify("thick_min=%d" % min(case["pml"].values()), "kappa_end=%s" % case.get("kappa_end", "default"))
 
     arrays = _run(small, ctx.lane)
     en = np.asarray(arrays.detector_states["en_in"]["energy"], dtype=np.float64).ravel()
